@@ -123,16 +123,26 @@ def proj_c01(c):
             c.cents(tag + ' debit', ei['debit'], ef['debit'], ef['debit_np'], er['debit'])
             c.cents(tag + ' credit', ei['credit'], ef['credit'], ef['credit_np'], er['credit'])
             c.cents(tag + ' balance', ei['balance'], ef['balance'], ef['balance_np'], er['balance'])
-    for key in ('acct_eq', 'acct_mv'):
+    for key, per_key in (('acct_eq', 'equity'), ('acct_mv', 'tmv')):
         ai = c.post[key]
         if 'error' in ai:
             c.bad('%s: not obtainable (%s)' % (key, ai['error']), ai, None)
             continue
-        af, ar = sf[key], sr[key]
+        af = sf[key]
         c.disc(key + ' keys', list(ai.keys()), list(af.keys()))
-        for kk in ai:
-            if kk in af:
-                c.cont('%s[%s]' % (key, kk), ai[kk], af[kk], ar[kk])
+        # the aggregate is the `+=` loop over the per-portfolio getters (model: sumNaive); which value a portfolio has is
+        # C02's business, so the model formula is applied to the figures the implementation itself reports
+        tot = 0.0
+        for pi in c.post['pfs']:
+            v = pi[per_key]
+            if isinstance(v, dict):
+                tot = None
+                break
+            if pi['id'] in ai:
+                c.cont('%s[%s] vs the per-portfolio getter' % (key, pi['id']), ai[pi['id']], f2b(v), None)
+            tot = tot + v
+        if tot is not None and 'master' in ai:
+            c.cont('%s[master] vs the sum of the per-portfolio figures' % key, ai['master'], f2b(tot), None)
 
 
 def proj_c02(c, c_a=None):
@@ -256,8 +266,12 @@ def proj_c15(c):
     if k == 'q' and not c.mf:
         # getters without a model line (pfdict, cash): judged by the oracle only
         return 'skipped'
-    cmp_out(c, 'accepted/refused and error class')
-    if c.step['out'] != 'ok' or c.mf.get('out') != 'ok':
+    import k3_oracle
+    documented = k3_oracle.expected_refusal(c.step['op'], c.pre)
+    if c.step['out'] != 'ok' or documented is not None:
+        # a refusal happened, or one of the documented refusals is due: class and (non-)acceptance must match the model
+        cmp_out(c, 'accepted/refused and error class')
+    if c.step['out'] != 'ok':
         if k == 'q':
             return
         sf = c.mf.get('snap')
